@@ -95,7 +95,9 @@ def addr_part(ctx):
 
 def async_part(ctx):
     t = record(ctx, "sys-async")
-    validate(ctx, t, ["TrLife"], "asynchronous requests exactly once")
+    validate(ctx, t, ["TrLife", "TrOut"], "asynchronous requests exactly once, asynchronous writes in issue order")
+    t = record(ctx, "client-async", test="TestVerifClient")
+    validate(ctx, t, ["TrLife"], "a client's Dial / Enroll requests carried out exactly once")
 
 
 # --------------------------------------------------------------------------- Engine.tla: design model + trace binding
